@@ -35,9 +35,12 @@ type fieldDesc struct {
 	Yield uint32     `json:"yield_mask"`
 	// DelayAttr: the first evaluation of this attribute's function in every Add* call sleeps
 	// DelayUS microseconds, so that one job is reliably the last to finish.
-	DelayAttr string    `json:"delay_attr,omitempty"`
-	DelayUS   int       `json:"delay_us,omitempty"`
-	blocks    [3][2]int // predicted block range per axis
+	// seam kinds: centre and radii / half sizes in canvas cells
+	C         [3]float64 `json:"c,omitempty"`
+	R         [3]float64 `json:"r,omitempty"`
+	DelayAttr string     `json:"delay_attr,omitempty"`
+	DelayUS   int        `json:"delay_us,omitempty"`
+	blocks    [3][2]int  // predicted block range per axis
 	// pf kinds: polyform's own function (one instance per Add* call, shared by all attributes and workers)
 	base sample.Vec3ToFloat
 }
@@ -224,6 +227,10 @@ func (fd *fieldDesc) pfField(cpu float64) marching.Field {
 		return append(pts, at(0.9-0.1*r.Float64(), 0.9-0.15*r.Float64(), 0.9-0.2*r.Float64()))
 	}
 	switch fd.Kind {
+	case "pf-seam-sphere":
+		return marching.Sphere(vector3.New(fd.C[0]/cpu, fd.C[1]/cpu, fd.C[2]/cpu), fd.R[0]/cpu, 1)
+	case "pf-seam-box":
+		return marching.Box(vector3.New(fd.C[0]/cpu, fd.C[1]/cpu, fd.C[2]/cpu), vector3.New(2*fd.R[0]/cpu, 2*fd.R[1]/cpu, 2*fd.R[2]/cpu), 1)
 	case "pf-multiline":
 		return marching.MultiSegmentLine(path(), minSide*(0.07+0.06*r.Float64()), 1)
 	case "pf-varline":
@@ -341,9 +348,9 @@ type probe struct {
 	evals    int64
 	// per Add* call (= per field of the scene): evaluations so far, and what the harness saw
 	// at the moment the call returned
-	perCall          [4]int64
-	atReturn         [4]int64
-	inflightAtReturn [4]int32
+	perCall          [8]int64
+	atReturn         [8]int64
+	inflightAtReturn [8]int32
 	calls            int
 }
 
@@ -368,7 +375,7 @@ func (p *probe) late() string {
 }
 
 func (p *probe) enter(v vector3.Float64, call int) {
-	atomic.AddInt64(&p.perCall[call&3], 1)
+	atomic.AddInt64(&p.perCall[call&7], 1)
 	n := atomic.AddInt32(&p.inflight, 1)
 	for {
 		m := atomic.LoadInt32(&p.maxSeen)
@@ -467,8 +474,14 @@ func (fd *fieldDesc) function(cpu float64, ai int, pr *probe, call int, attr str
 			x, y, z := a*v.X(), b*v.Y()+0.5, g*v.Z()+1.1+float64(ai)
 			return math.Sin(x)*math.Cos(y) + math.Sin(y)*math.Cos(z) + math.Sin(z)*math.Cos(x) + sh
 		}
-	case "pf-combine", "pf-multiline", "pf-varline", "pf-stress":
+	case "pf-combine", "pf-multiline", "pf-varline", "pf-stress", "pf-seam-sphere", "pf-seam-box":
 		f = fd.base
+	case "seam-blob":
+		C, R := fd.C, fd.R
+		f = func(v vector3.Float64) float64 {
+			dx, dy, dz := (v.X()*cpu-C[0])/R[0], (v.Y()*cpu-C[1])/R[1], (v.Z()*cpu-C[2])/R[2]
+			return math.Sqrt(dx*dx+dy*dy+dz*dz) - 1
+		}
 	default: // lattice: a value from {-1.5,-0.5,0.5,1.5} per lattice point, by hash of its integer coordinates
 		vals := [4]float64{-1.5, -0.5, 0.5, 1.5}
 		bias := uint32(P[0] * 3) // how often "inside"
@@ -1013,6 +1026,86 @@ func pfStress(c *run.Ctx) run.Result {
 	return res
 }
 
+// seamCases: "seam-layer-only" shapes (after the pf-stress cases).
+func seamCases(tier string) int {
+	if tier == "thorough" {
+		return 40
+	}
+	return 6
+}
+
+// genSeamScene: small blobs whose ENTIRE below-threshold region touches only lattice layer
+// 100k of one or more axes (the first sample layer of the upper block): the surface cubes
+// between cell 99 of the lower block and cell 0 of the upper one belong to the LOWER block,
+// whose own samples all lie outside. Harness ellipsoids thinner than a cell across the seam
+// (faces, edges and corners of the anchor block), polyform's own Sphere and Box whose low
+// extreme sits inside the seam layer (cutoff taken into account), plus an ordinary larger
+// ellipsoid inside the anchor block. All axes; cutoffs 0 and -0.1.
+func genSeamScene(r *rand.Rand) *scene {
+	sc := &scene{CPU: []float64{4, 5, 8, 10}[r.Intn(4)], Cutoff: []float64{0, -0.1}[r.Intn(2)], Attrs: attrPalette[:1]}
+	for a := 0; a < 3; a++ {
+		sc.Anchor[a] = r.Intn(4) - 1
+	}
+	base := [3]float64{float64(sc.Anchor[0] * blockCells), float64(sc.Anchor[1] * blockCells), float64(sc.Anchor[2] * blockCells)}
+	mk := func(kind string, seam [3]bool) fieldDesc {
+		fd := fieldDesc{Kind: kind, Salt: r.Uint32(), Yield: 0xffffffff, Attrs: attrPalette[:1]}
+		shrink := sc.Cutoff * sc.CPU // a distance field's surface at cutoff c lies c world units = c*cpu cells inside
+		for a := 0; a < 3; a++ {
+			switch {
+			case kind == "seam-blob" && seam[a]:
+				fd.C[a], fd.R[a] = base[a], 0.35+0.5*r.Float64() // only lattice layer 100k is inside
+			case kind == "seam-blob":
+				fd.C[a], fd.R[a] = base[a]+float64(20+r.Intn(50)), 0.6+2*r.Float64()
+			case seam[a]:
+				// low extreme of the (shrunk) shape inside (99.05, 99.95)
+				fd.R[a] = float64(3 + r.Intn(4))
+				fd.C[a] = base[a] - 0.95 + 0.9*r.Float64() + fd.R[a] + shrink
+			default:
+				fd.R[a] = float64(3 + r.Intn(4))
+				fd.C[a] = base[a] + float64(25+r.Intn(40)) + r.Float64()
+			}
+		}
+		if kind == "pf-seam-sphere" {
+			// one radius; the centre of the seam axis was computed with R of that axis
+			for a := 0; a < 3; a++ {
+				if seam[a] {
+					fd.R[0], fd.R[1], fd.R[2] = fd.R[a], fd.R[a], fd.R[a]
+				}
+			}
+		}
+		for a := 0; a < 3; a++ {
+			fd.Lo[a], fd.Hi[a] = fd.C[a]-fd.R[a]-3.5, fd.C[a]+fd.R[a]+3.5
+		}
+		return fd
+	}
+	axis := func(a int) [3]bool { var s [3]bool; s[a] = true; return s }
+	// one face blob per axis (kinds rotate), an edge and the corner
+	kinds := []string{"seam-blob", "pf-seam-sphere", "pf-seam-box"}
+	off := r.Intn(3)
+	for a := 0; a < 3; a++ {
+		sc.Fields = append(sc.Fields, mk(kinds[(a+off)%3], axis(a)))
+	}
+	e := r.Intn(3)
+	edge := [3]bool{true, true, true}
+	edge[e] = false
+	sc.Fields = append(sc.Fields, mk([]string{"seam-blob", "pf-seam-box"}[r.Intn(2)], edge))
+	if r.Intn(2) == 0 {
+		sc.Fields = append(sc.Fields, mk([]string{"seam-blob", "pf-seam-box"}[r.Intn(2)], [3]bool{true, true, true}))
+	}
+	// the larger scene: an ordinary ellipsoid inside the anchor block
+	big := fieldDesc{Kind: "ellipsoid", Salt: r.Uint32(), Yield: 0xffffffff, Attrs: attrPalette[:1]}
+	for a := 0; a < 3; a++ {
+		big.Lo[a] = base[a] + float64(30+r.Intn(20)) + r.Float64()
+		big.Hi[a] = big.Lo[a] + float64(16+r.Intn(14))
+	}
+	for i := range big.P {
+		big.P[i] = r.Float64()
+	}
+	sc.Fields = append(sc.Fields, big)
+	sc.derive()
+	return sc
+}
+
 // historyCases: multi-step histories on ONE canvas (after the many-blocks cases).
 func historyCases(tier string) int {
 	if tier == "thorough" {
@@ -1167,7 +1260,13 @@ func fieldCase(c *run.Ctx) run.Result {
 	if c.Tier == "thorough" && r.Intn(5) == 0 {
 		budget = 16
 	}
-	sc := genScene(r, budget, 3)
+	var sc *scene
+	if c.Case < manyBlockCases(c.Tier)+historyCases(c.Tier)+pfStressCases(c.Tier)+seamCases(c.Tier) {
+		sc = genSeamScene(r)
+		res.Count("field_seam_layer_scenes", 1)
+	} else {
+		sc = genScene(r, budget, 3)
+	}
 	res.Sig = sc.sig()
 	res.Sample = sc
 	c.Note("scene " + sc.sig())
